@@ -5,7 +5,6 @@ import json
 NA = {
     "C03": "byte coverage by leaves is a sum over data-dependent span endpoints and line jumps; no shape-level necessary condition that the pinned suite does not already kill (DESIGN.md §3 C03)",
     "C06": "CommonMark conformance is an input-text→output-text relation through the whole block and inline algorithms; only an executable reference could judge it, which is a different technique (DESIGN.md §3 C06)",
-    "C09": "metamorphic relation between the parses of two different texts; nothing in the shape of the code is equivalent to it (DESIGN.md §3 C09)",
     "C13": "per-construct span shape is pure offset arithmetic per construct (see C02) (DESIGN.md §3 C13)",
 }
 
@@ -29,6 +28,9 @@ CHECKS = {
     "C08": (True, "SSA dominance rules on the reader loop: error latch (interprocedural), no read after error, sticky error, read count and error kept, line completeness, search start, buffer ownership, padding start, same machine, two-pass order",
             "Necessary conditions of streaming≡in-memory: the reader is never consulted after it reported an error/EOF, the stored error is never replaced and is what NextBlock returns, bytes and errors returned together are both kept, a line is complete only behind LF / look-ahead / end of input, the line-ending search never starts behind a pending CR, the buffer never moves back into memory of returned blocks, padNulls looks only at new bytes, Parse uses NextBlock as its only splitter with the same line-counter initialisation, Extract precedes Rewrite. Tree equality under arbitrary chunking is arithmetic over buffer contents and is not decided.",
             "go/ssa dominators; helper arithmetic trusted"),
+    "C09": (True, "path rule on the window of the line-jumping reader relative to the line cursor (READER-WINDOW), provenance rule on the start of a paragraph's remainder after link reference definitions (PARA-REST-START), who-compares rule on raw reader distances (READER-DIST)",
+            "Three necessary conditions about reading inline text through container prefixes ('> ', list indentation): a reader over the remaining lines built at a scanner-returned position takes its window before the line cursor moves to the scanner's end (otherwise earlier lines of a multi-line destination/title are collected raw, prefixes included); what remains of a paragraph after link reference definitions starts at the reader's position, not at a raw end-of-line offset; no length limit is applied to a raw distance between reader positions. That the block phase strips the same prefix from every line, and the metamorphic relation itself, are behavioural and not decided.",
+            "go/ssa CFG paths and def-use; resync summaries of callees"),
     "C10": (True, "per-kind outcome tables of the renderer callbacks (HTX-KIND/PAIR) against the documented mapping, text provenance, write-effect analysis of the read path, block-join provenance",
             "Structural parts of canonical serialisation: for every node kind and configuration the sequence of tags/constants/dynamic classes emitted equals the documented mapping and pre/post are paired; dynamic text comes from the visited node's accessors and is escaped; rendering writes only call-local memory and has no nondeterminism source; Render joins AppendBlock results with the blank-line separator in slice order. Byte-for-byte equality with an independent serialiser is not decided.",
             "oracle tables transcribed from doc comments and the CommonMark HTML mapping; EFF external-callee table"),
